@@ -514,6 +514,15 @@ def label_count_cases():
     return out
 
 
+def corpus_cases():
+    import glob, os
+    out = []
+    for f in sorted(glob.glob(os.path.join(core.VERIF, "corpus", "C10", "*.ops"))):
+        ops = [l.rstrip("\n") for l in open(f) if l.strip() and not l.startswith("#")]
+        out += corr.split_cases(ops, CASE_START)
+    return out
+
+
 # ------------------------------------------------------------------------------------------ the check
 
 def classify(op, impl):
@@ -565,6 +574,8 @@ def run(chk):
         for k, v in st.items():
             total[k] = total.get(k, 0) + v
 
+    # regression corpus first: the minimised replays of the defects fixed in the repo (known_findings.d/C10.jsonl)
+    go(corpus_cases())
     # KF-C10-1 is reproduced on every run: a question whose type / class is not a value of the plain enums
     go([[f"parse {hexs(hdr(1, 0, 0, 0) + wire_name([b'a']) + struct.pack('>HH', 255, 1))}"],
         [f"parse {hexs(hdr(1, 0, 0, 0) + wire_name([b'a']) + struct.pack('>HH', 1, 256))}"],
@@ -573,10 +584,10 @@ def run(chk):
     go(malformed_cases(rng))
     go(label_count_cases())
     go([chain_case(rng, d) for d in (2, 5, 31, 32, 33, 40)])
-    go([realistic_case(rng) for _ in range(150 if quick else 3000)])
+    go([realistic_case(rng) for _ in range(300 if quick else 3000)])
     go(exhaustive_cases(rng, 2, 10**9) + (exhaustive_cases(rng, 3, 10**9) if not quick else []))
     # seeded random histories
-    n = 700 if quick else 30000
+    n = 1200 if quick else 30000
     batch = 2500
     for start in range(0, n, batch):
         cases = []
